@@ -1,0 +1,37 @@
+//go:build verif
+
+// Package simhook contains cooperative scheduling points for deterministic simulation.
+// With the "verif" build tag the functions forward to handlers installed by the simulator.
+package simhook
+
+var (
+	// YieldFn is called by Yield when set.
+	YieldFn func(point string)
+	// HitFn is called by Hit when set.
+	HitFn func(point string)
+	// PermFn is called by Perm when set; it returns a permutation of [0,n).
+	PermFn func(point string, n int) []int
+)
+
+// Yield marks a point where the calling goroutine holds no lock and a simulator may suspend it.
+func Yield(point string) {
+	if f := YieldFn; f != nil {
+		f(point)
+	}
+}
+
+// Hit reports that a rarely executed branch has been reached.
+func Hit(point string) {
+	if f := HitFn; f != nil {
+		f(point)
+	}
+}
+
+// Perm lets a simulator choose the processing order of n items collected from a map.
+// A nil result means "keep the order".
+func Perm(point string, n int) []int {
+	if f := PermFn; f != nil {
+		return f(point, n)
+	}
+	return nil
+}
